@@ -47,10 +47,20 @@ def gen_query(rng, V, plain_facts, unit_facts, short=()):
     for _ in range(nf - 1 + rng.randint(0, 2)):
         op = rng.choice("**/")
         t2, tr2 = leaf()
+        # (no blank around the operator when the operand in front of it is a fact phrase or a parenthesis and a number or a phrase
+        # follows: `speed of light*2`, `population finland/population world` - seed C06-j: a stale blank count swallows the operator
+        # into the phrase)
+        glue = " %s " % op
+        if rng.random() < 0.2 and tr2[0] in ("fact", "num") and not t2.startswith("-"):
+            glue = op
         if rng.random() < 0.5:
-            text, tree = "%s %s %s" % (text, op, t2), ("bin", op, tree, tr2)
+            if glue == op and tree[0] not in ("fact",) and not text.endswith(")"):
+                glue = " %s " % op
+            text, tree = "%s%s%s" % (text, glue, t2), ("bin", op, tree, tr2)
         else:
-            text, tree = "%s %s (%s)" % (t2, op, text), ("bin", op, tr2, tree)
+            if glue == op and tr2[0] != "fact":
+                glue = " %s " % op
+            text, tree = "%s%s(%s)" % (t2, glue, text), ("bin", op, tr2, tree)
     if short and rng.random() < 0.25:
         # a one- or two-letter phrase (g, c, e, au ...), parenthesised so that it is a value and not a unit
         w = rng.choice(short)
@@ -191,10 +201,10 @@ def shard(p):
                 other = rng.choice(plain)
                 queries.append(("%s / (%s)" % (other, m), ("bin", "/", ("fact", other), ("fact", m))))
             elif form == 3:
-                ph2 = " ".join(near(x) if i == len(ph) - 1 else x for i, x in enumerate(ph))
+                ph2 = " ".join(y for y in (near(x) if i == len(ph) - 1 else x for i, x in enumerate(ph)) if y)
                 queries.append((ph2, ("fact", ph2)))
             elif form == 4:
-                ph2 = " ".join(near(x) if i == 0 else x for i, x in enumerate(ph))
+                ph2 = " ".join(y for y in (near(x) if i == 0 else x for i, x in enumerate(ph)) if y)
                 queries.append(("(%s) * 3" % ph2, ("bin", "*", ("fact", ph2), ("num", F(3)))))
             else:
                 queries.append(("(%s) * (%s)" % (m, near(rng.choice(words))), None))
